@@ -279,6 +279,9 @@ inline RecipeFields deriveFields(const PacketRecipe& r)
 {
     RecipeFields f;
     const uint32_t s = r.seed;
+    // one recipe in sixteen has every derived numeric field 0, one in sixteen all-ones (within the field's valid bits):
+    // pseudo-random words never take the values a "missing / unset" test looks for
+    auto mx = [s](uint32_t k) -> uint32_t { return s % 16 == 7 ? 0u : s % 16 == 9 ? 0xFFFFFFFFu : mix(s, k); };
     switch (r.kind)
     {
         case rkCan:
@@ -286,12 +289,12 @@ inline RecipeFields deriveFields(const PacketRecipe& r)
         {
             uint32_t n = std::min<uint32_t>(r.len, 255);
             f.data = fillBytes(s ^ 0x11, n);
-            f.can.flags = static_cast<uint16_t>(mix(s, 1) & 0x3C00);  // r0, srrDom, brs, esi: no error bits
-            f.can.idWord = mix(s, 2);                                 // 29-bit id + rsvd/rtr/ide bits
+            f.can.flags = static_cast<uint16_t>(mx(1) & 0x3C00);  // r0, srrDom, brs, esi: no error bits
+            f.can.idWord = mx(2);                                 // 29-bit id + rsvd/rtr/ide bits
             if (r.kind == rkCan)
-                f.can.crcWord = mix(s, 3) & 0x80007FFFu;
+                f.can.crcWord = mx(3) & 0x80007FFFu;
             else
-                f.can.crcWord = mix(s, 3) & 0xC1FFFFFFu;
+                f.can.crcWord = mx(3) & 0xC1FFFFFFu;
             f.can.errorPosition = 0;
             bool defined;
             f.can.dlc = wire::canDlcFor(static_cast<uint8_t>(n), defined);
@@ -302,9 +305,9 @@ inline RecipeFields deriveFields(const PacketRecipe& r)
         {
             uint32_t n = std::min<uint32_t>(r.len, 255);
             f.data = fillBytes(s ^ 0x22, n);
-            f.lin.flags = (mix(s, 1) & 1) ? 0x0100 : 0;
-            f.lin.pid = static_cast<uint8_t>(mix(s, 2));
-            f.lin.checksum = static_cast<uint8_t>(mix(s, 3));
+            f.lin.flags = (mx(1) & 1) ? 0x0100 : 0;
+            f.lin.pid = static_cast<uint8_t>(mx(2));
+            f.lin.checksum = static_cast<uint8_t>(mx(3));
             f.lin.dataLength = static_cast<uint8_t>(n);
             break;
         }
@@ -312,22 +315,22 @@ inline RecipeFields deriveFields(const PacketRecipe& r)
         {
             uint32_t n = std::min<uint32_t>(r.len, PacketRecipe::maxLen(rkEthernet));
             f.data = fillBytes(s ^ 0x33, n);
-            f.eth.flags = (mix(s, 1) & 1) ? 0x0080 : 0;
+            f.eth.flags = (mx(1) & 1) ? 0x0080 : 0;
             f.eth.dataLength = static_cast<uint16_t>(n);
             break;
         }
         case rkAnalog:
         {
             uint32_t n = std::min<uint32_t>(r.len, PacketRecipe::maxLen(rkAnalog));
-            unsigned dt = mix(s, 1) & 1;
+            unsigned dt = mx(1) & 1;
             n -= n % (dt ? 4 : 2);
             f.data = fillBytes(s ^ 0x44, n);
             f.analog.flags = static_cast<uint16_t>(dt);
-            f.analog.unit = static_cast<uint8_t>(mix(s, 2) % 0x55);
+            f.analog.unit = static_cast<uint8_t>(mx(2) % 0x55);
             // finite floats only (the API path passes them by value)
-            f.analog.intervalBits = wire::floatBits(static_cast<float>(mix(s, 3) % 100000) / 7.0f);
-            f.analog.offsetBits = wire::floatBits(-static_cast<float>(mix(s, 4) % 100000) / 3.0f);
-            f.analog.scalarBits = wire::floatBits(static_cast<float>(mix(s, 5) % 1000) * 0.125f);
+            f.analog.intervalBits = wire::floatBits(static_cast<float>(mx(3) % 100000) / 7.0f);
+            f.analog.offsetBits = wire::floatBits(-static_cast<float>(mx(4) % 100000) / 3.0f);
+            f.analog.scalarBits = wire::floatBits(static_cast<float>(mx(5) % 1000) * 0.125f);
             break;
         }
         case rkCmStatus:
@@ -336,7 +339,7 @@ inline RecipeFields deriveFields(const PacketRecipe& r)
             uint32_t w[5], sum = 0;
             for (int i = 0; i < 5; ++i)
             {
-                w[i] = mix(s, 10 + i) % 8;
+                w[i] = mx(10 + i) % 8;
                 sum += w[i];
             }
             if (!sum)
@@ -352,33 +355,33 @@ inline RecipeFields deriveFields(const PacketRecipe& r)
                 used += l;
             }
             f.vendor = fillBytes(s ^ 0x55, n - used);
-            f.cm.uptime = (static_cast<uint64_t>(mix(s, 1)) << 32) | mix(s, 2);
-            f.cm.gmIdentity = (static_cast<uint64_t>(mix(s, 3)) << 32) | mix(s, 4);
-            f.cm.gmClockQuality = mix(s, 5);
-            f.cm.currentUtcOffset = static_cast<uint16_t>(mix(s, 6));
-            f.cm.timeSource = static_cast<uint8_t>(mix(s, 7));
-            f.cm.domainNumber = static_cast<uint8_t>(mix(s, 8));
-            f.cm.gptpFlags = static_cast<uint8_t>(mix(s, 9));
+            f.cm.uptime = (static_cast<uint64_t>(mx(1)) << 32) | mx(2);
+            f.cm.gmIdentity = (static_cast<uint64_t>(mx(3)) << 32) | mx(4);
+            f.cm.gmClockQuality = mx(5);
+            f.cm.currentUtcOffset = static_cast<uint16_t>(mx(6));
+            f.cm.timeSource = static_cast<uint8_t>(mx(7));
+            f.cm.domainNumber = static_cast<uint8_t>(mx(8));
+            f.cm.gptpFlags = static_cast<uint8_t>(mx(9));
             break;
         }
         case rkIfStatus:
         {
             uint32_t n = std::min<uint32_t>(r.len, PacketRecipe::maxLen(rkIfStatus));
-            uint32_t ids = n * (mix(s, 10) % 5) / 4;
+            uint32_t ids = n * (mx(10) % 5) / 4;
             if (ids > n)
                 ids = n;
             f.streamIds = fillBytes(s ^ 0x66, ids);
             f.vendor = fillBytes(s ^ 0x67, n - ids);
-            f.ifs.interfaceId = mix(s, 1);
-            f.ifs.msgTotalRx = mix(s, 2);
-            f.ifs.msgTotalTx = mix(s, 3);
-            f.ifs.msgDroppedRx = mix(s, 4);
-            f.ifs.msgDroppedTx = mix(s, 5);
-            f.ifs.errorsTotalRx = mix(s, 6);
-            f.ifs.errorsTotalTx = mix(s, 7);
-            f.ifs.interfaceType = static_cast<uint8_t>(mix(s, 8));
-            f.ifs.interfaceStatus = static_cast<uint8_t>(mix(s, 9) % 3);
-            f.ifs.featureSupportBitmask = mix(s, 11);
+            f.ifs.interfaceId = mx(1);
+            f.ifs.msgTotalRx = mx(2);
+            f.ifs.msgTotalTx = mx(3);
+            f.ifs.msgDroppedRx = mx(4);
+            f.ifs.msgDroppedTx = mx(5);
+            f.ifs.errorsTotalRx = mx(6);
+            f.ifs.errorsTotalTx = mx(7);
+            f.ifs.interfaceType = static_cast<uint8_t>(mx(8));
+            f.ifs.interfaceStatus = static_cast<uint8_t>(mx(9) % 3);
+            f.ifs.featureSupportBitmask = mx(11);
             break;
         }
         default:
